@@ -131,6 +131,21 @@ theorem take_and_packer_return_clean_storage {α : Type} :
   ⟨fun c hc indices c' h => take_none_clean c hc indices c' h, fun df packed h => packSortedDf_clean df packed h⟩
 
 open NP in
+/-- **Joins keep frames sound, whatever the join kind**: a successful `add_nested` of ANY flat table
+    onto a sound frame, with `how` = left / right / inner / outer, returns a sound frame (every old
+    column re-gathered into clean storage, the new column clean storage, one row per result row). -/
+theorem join_keeps_frames_sound {α : Type} [Inhabited α] (F : NFrame α) (h : F.Sound) (flat : FlatDF α)
+    (name : String) (how : JoinHow) (na : α) (F' : NFrame α) (hok : F.addNested flat name how na = .ok F') :
+    F'.Sound :=
+  addNested_sound F h flat name how na F' hok
+
+open NP in
+/-- **Chains mixing nested queries, dropnas, sorts and joins**, of any length: sound to any depth. -/
+theorem mixed_chains_stay_sound (ops : List FrameOp) (F : NFrame Cell) (h : F.Sound) (F' : NFrame Cell)
+    (hok : runFrameChain F ops = .ok F') : F'.Sound :=
+  runFrameChain_sound ops F h F' hok
+
+open NP in
 /-- non-vacuity: the sample frame (a nested column in two chunks, the first a slice into a larger
     buffer) is sound -/
 example : Samples.qframe.Sound := by
